@@ -413,4 +413,188 @@ theorem karaMulChain_from_exact {chain : List Nat} (hc : halvingChain chain = tr
 /-- the extracted macro chain `128, 64, 32, 16, 8` halves at every level -/
 theorem karaMulSizes_halving : halvingChain karaMulSizes = true := by decide
 
+/-! ### the squaring step -/
+
+/-- a squaring routine is exact on `h`-limb operands -/
+def ExactSq (h : Nat) (f : List Nat → List Nat × List Nat) : Prop :=
+  ∀ a, WF a → a.length = h → ExactPair (f a) h h (val a * val a)
+
+/-- the recombination part of `karaSqStep` given the three half squares:
+    result and the two carries / borrows the code drops -/
+def sqChain (h : Nat) (z0 z2 z1 : List Nat × List Nat) : (List Nat × List Nat) × (Nat × Nat) :=
+  let zero := uzero h
+  let a0 := uadc z0.2 z0.1 0
+  let a1 := uadc z0.2 z2.1 a0.2
+  let a2 := uadc a0.1 z2.1 0
+  let a3 := uadc a1.1 z2.2 a2.2
+  let a4 := uadc z2.2 zero (wadd a1.2 a3.2)
+  let b1 := usbb a2.1 z1.1 0
+  let b2 := usbb a3.1 z1.2 b1.2
+  let b3 := usbb a4.1 zero b2.2
+  ((z0.1 ++ b1.1, b2.1 ++ b3.1), (a4.2, b3.2))
+
+theorem karaSqStep_eq (h : Nat) (f : List Nat → List Nat × List Nat) (limbs : List Nat) :
+    karaSqStep h f limbs =
+      (sqChain h (f (limbs.take h)) (f (limbs.drop h)) (f (absd (limbs.take h) (limbs.drop h)))).1 := rfl
+
+/-- facts about one `usbb` call on `h`-limb operands -/
+theorem usbb_facts {a b : List Nat} {h : Nat} {bw : Nat} (ha : WF a) (hb : WF b) (hbw : bw < B)
+    (hla : a.length = h) (hlb : b.length = h) :
+    val (usbb a b bw).1 + (val b + bw / HALF) = val a + B ^ h * ((usbb a b bw).2 / HALF) ∧
+    WF (usbb a b bw).1 ∧ (usbb a b bw).1.length = h ∧ (usbb a b bw).2 < B := by
+  have hl : a.length = b.length := by rw [hla, hlb]
+  have ⟨s1, s2, _⟩ := usbb_spec ha hb hbw hl
+  rw [hla] at s1
+  exact ⟨s1, usbb_WF a b bw, by rw [usbb_length a b bw hl, hla], s2⟩
+
+theorem sq_fit {K X0 X1 : Nat} (h0 : X0 < K) (h1 : X1 < K) :
+    (1 + K) * (X0 * X0 + K * (X1 * X1)) < K * K * K * K := by
+  obtain ⟨k, rfl⟩ : ∃ k, K = k + 1 := ⟨K - 1, by omega⟩
+  have a0 : X0 * X0 ≤ k * k := Nat.mul_le_mul (by omega) (by omega)
+  have a1 : X1 * X1 ≤ k * k := Nat.mul_le_mul (by omega) (by omega)
+  have b1 : (1 + (k + 1)) * (X0 * X0 + (k + 1) * (X1 * X1)) ≤ (1 + (k + 1)) * (k * k + (k + 1) * (k * k)) :=
+    Nat.mul_le_mul_left _ (Nat.add_le_add a0 (Nat.mul_le_mul_left _ a1))
+  have b2 : (1 + (k + 1)) * (k * k + (k + 1) * (k * k)) = (k * k + 2 * k) ^ 2 := by ring
+  have b3 : (k + 1) * (k + 1) * (k + 1) * (k + 1) = (k * k + 2 * k + 1) ^ 2 := by ring
+  have b4 : (k * k + 2 * k) ^ 2 < (k * k + 2 * k + 1) ^ 2 := Nat.pow_lt_pow_left (Nat.lt_succ_self _) (by decide)
+  omega
+
+theorem sq_identity_halves (K X0 X1 D : Nat) (h : D + X1 = X0 ∨ D + X0 = X1) :
+    (1 + K) * (X0 * X0 + K * (X1 * X1)) = (X0 + K * X1) * (X0 + K * X1) + K * (D * D) := by
+  rcases h with h | h <;> subst h <;> ring
+
+/-- The recombination of the squaring step is exact; the carry dropped by
+    `(res.3, _) = z2.1.adc(&ZERO, carry + carry2)` and the borrow dropped by the last `sbb` are both 0;
+    `carry.wrapping_add(carry2)` does not wrap. -/
+theorem sqChain_spec {h : Nat} {z0 z2 z1 : List Nat × List Nat} {P0 P2 P1 Q : Nat}
+    (hz0 : ExactPair z0 h h P0) (hz2 : ExactPair z2 h h P2) (hz1 : ExactPair z1 h h P1)
+    (hfit : (1 + B ^ h) * (P0 + B ^ h * P2) < B ^ h * B ^ h * B ^ h * B ^ h)
+    (hid : (1 + B ^ h) * (P0 + B ^ h * P2) = Q + B ^ h * P1) :
+    ExactPair (sqChain h z0 z2 z1).1 (2 * h) (2 * h) Q ∧ (sqChain h z0 z2 z1).2.1 = 0 ∧
+      (sqChain h z0 z2 z1).2.2 / HALF = 0 := by
+  obtain ⟨z0W1, z0W2, z0L1, z0L2, z0E⟩ := hz0
+  obtain ⟨z2W1, z2W2, z2L1, z2L2, z2E⟩ := hz2
+  obtain ⟨z1W1, z1W2, z1L1, z1L2, z1E⟩ := hz1
+  have zW := uzero_WF h
+  have zL := uzero_length h
+  have zV := val_uzero h
+  simp only [sqChain]
+  have ⟨e0, w0, l0, c0⟩ := uadc_facts 0 z0W2 z0W1 z0L2 z0L1
+  generalize uadc z0.2 z0.1 0 = A0 at *
+  have ⟨e1, w1, l1, c1⟩ := uadc_facts A0.2 z0W2 z2W1 z0L2 z2L1
+  generalize uadc z0.2 z2.1 A0.2 = A1 at *
+  have ⟨e2, w2, l2, c2⟩ := uadc_facts 0 w0 z2W1 l0 z2L1
+  generalize uadc A0.1 z2.1 0 = A2 at *
+  have ⟨e3, w3, l3, c3⟩ := uadc_facts A2.2 w1 z2W2 l1 z2L2
+  generalize uadc A1.1 z2.2 A2.2 = A3 at *
+  have n1 : wadd A1.2 A3.2 = A1.2 + A3.2 := wadd_small (by simp only [B_def]; omega)
+  rw [n1]
+  have ⟨e4, w4, l4, c4⟩ := uadc_facts (A1.2 + A3.2) z2W2 zW z2L2 zL
+  generalize uadc z2.2 (uzero h) (A1.2 + A3.2) = A4 at *
+  have ⟨f1, v1, m1, d1⟩ := usbb_facts (bw := 0) w2 z1W1 (by decide) l2 z1L1
+  generalize usbb A2.1 z1.1 0 = S1 at *
+  have ⟨f2, v2, m2, d2⟩ := usbb_facts w3 z1W2 d1 l3 z1L2
+  generalize usbb A3.1 z1.2 S1.2 = S2 at *
+  have ⟨f3, v3, m3, d3⟩ := usbb_facts w4 zW d2 l4 zL
+  generalize usbb A4.1 (uzero h) S2.2 = S3 at *
+  have h00 : (0 : Nat) / HALF = 0 := by decide
+  rw [h00] at f1
+  rw [zV] at e4 f3
+  have bz0 := val_lt_pow z0W1 z0L1
+  have bS1 := val_lt_pow v1 m1
+  have bS2 := val_lt_pow v2 m2
+  have bS3 := val_lt_pow v3 m3
+  have bz1h := val_lt_pow z1W2 z1L2
+  have bz1l := val_lt_pow z1W1 z1L1
+  have p2 : B ^ (2 * h) = B ^ h * B ^ h := by rw [← Nat.pow_add]; congr 1; omega
+  have hK : 0 < B ^ h := Nat.pow_pos B_pos
+  generalize hKe : B ^ h = K at *
+  -- the sum z0 + (z0 + z2)•b + z2•b² as computed, with its carry
+  have hS : val z0.1 + K * val A2.1 + K * K * val A3.1 + K * K * K * val A4.1 + K * K * K * K * A4.2
+      = (1 + K) * (P0 + K * P2) := by
+    linear_combination K * (e0 + e2) + K * K * (e1 + e3) + K * K * K * e4 + (1 + K) * z0E
+      + (K + K * K) * z2E
+  have hA4 : A4.2 = 0 := by
+    rcases Nat.eq_zero_or_pos A4.2 with h | h
+    · exact h
+    · have : K * K * K * K * 1 ≤ K * K * K * K * A4.2 := Nat.mul_le_mul_left _ h
+      omega
+  rw [hA4, Nat.mul_zero, Nat.add_zero] at hS
+  -- subtracting z1•b
+  have hV : val z0.1 + K * val S1.1 + K * K * val S2.1 + K * K * K * val S3.1
+      = Q + K * K * K * K * (S3.2 / HALF) := by
+    have := hS.trans hid
+    linear_combination K * f1 + K * K * f2 + K * K * K * f3 + this + K * z1E.symm
+  have hlt : val z0.1 + K * val S1.1 + K * K * val S2.1 + K * K * K * val S3.1 < K * K * K * K := by
+    have t1 : K * (val S1.1 + 1) ≤ K * K := Nat.mul_le_mul_left _ bS1
+    have t2 : K * K * (val S2.1 + 1) ≤ K * K * K := Nat.mul_le_mul_left _ bS2
+    have t3 : K * K * K * (val S3.1 + 1) ≤ K * K * K * K := Nat.mul_le_mul_left _ bS3
+    simp only [Nat.mul_add, Nat.mul_one] at t1 t2 t3
+    omega
+  have hb3 : S3.2 / HALF = 0 := by
+    rcases Nat.eq_zero_or_pos (S3.2 / HALF) with h | h
+    · exact h
+    · have : K * K * K * K * 1 ≤ K * K * K * K * (S3.2 / HALF) := Nat.mul_le_mul_left _ h
+      omega
+  rw [hb3, Nat.mul_zero, Nat.add_zero] at hV
+  refine ⟨⟨WF_append.mpr ⟨z0W1, v1⟩, WF_append.mpr ⟨v2, v3⟩, by rw [List.length_append, z0L1, m1]; omega,
+    by rw [List.length_append, m2, m3]; omega, ?_⟩, hA4, hb3⟩
+  simp only
+  rw [val_append, val_append, z0L1, m2, p2, hKe]
+  linear_combination hV
+
+/-- T03.6 core: one fixed-size Karatsuba squaring level is exact for every half size `h`, given an
+    exact half squaring. -/
+theorem karaSqStep_spec (h : Nat) (f : List Nat → List Nat × List Nat) (hf : ExactSq h f)
+    (x : List Nat) (hx : WF x) (hlx : x.length = 2 * h) :
+    ExactPair (karaSqStep h f x) (2 * h) (2 * h) (val x * val x) := by
+  have ⟨wx0, wx1, lx0, lx1, ex⟩ := split_halves hx hlx
+  have ⟨_, wd, ld, d1, d2⟩ := absd_spec wx0 wx1 (by rw [lx0, lx1])
+  rw [lx0] at ld
+  have hz0 := hf _ wx0 lx0
+  have hz2 := hf _ wx1 lx1
+  have hz1 := hf _ wd ld
+  have hX0 := val_lt_pow wx0 lx0
+  have hX1 := val_lt_pow wx1 lx1
+  have hcase : val (absd (x.take h) (x.drop h)) + val (x.drop h) = val (x.take h) ∨
+      val (absd (x.take h) (x.drop h)) + val (x.take h) = val (x.drop h) := by
+    by_cases c : val (x.take h) < val (x.drop h)
+    · exact Or.inr (d1 c)
+    · exact Or.inl (d2 c)
+  rw [karaSqStep_eq, ex]
+  exact (sqChain_spec hz0 hz2 hz1 (sq_fit hX0 hX1) (sq_identity_halves (B ^ h) _ _ _ hcase)).1
+
+theorem uintSquareLimbs_exactSq (h : Nat) : ExactSq h uintSquareLimbs := by
+  intro a ha la
+  have ⟨h1, h2, h3⟩ := schoolbookSquare_spec a ha
+  have := exactPair_of_list (n := a.length) (m := a.length) h2 (by rw [h3]; omega) h1
+  rw [la] at this
+  rw [show uintSquareLimbs a = ((schoolbookSquare a).take h, (schoolbookSquare a).drop h) by
+    unfold uintSquareLimbs; rw [la]]
+  exact this
+
+theorem karaSqChain_spec : ∀ (chain : List Nat), halvingChain chain = true →
+    ∀ n, chain.head? = some n → ExactSq n (karaSqChain chain)
+  | [], _, n, hn => by simp at hn
+  | [b], _, n, hn => by
+    simp only [List.head?_cons, Option.some.injEq] at hn; subst hn
+    exact uintSquareLimbs_exactSq _
+  | full :: half :: rest, hc, n, hn => by
+    simp only [List.head?_cons, Option.some.injEq] at hn; subst hn
+    simp only [halvingChain, Bool.and_eq_true, beq_iff_eq] at hc
+    have ih := karaSqChain_spec (half :: rest) hc.2 half rfl
+    intro a ha la
+    show ExactPair (karaSqStep half (karaSqChain (half :: rest)) a) _ _ _
+    rw [hc.1]
+    exact karaSqStep_spec half _ ih a ha (by rw [la, hc.1])
+
+theorem karaSqChain_from_exact {chain : List Nat} (hc : halvingChain chain = true) (n : Nat) :
+    ExactSq n (karaSqChain (chainFrom n chain)) := by
+  rcases chainFrom_spec n chain hc with h | ⟨h1, h2⟩
+  · rw [h]; exact uintSquareLimbs_exactSq n
+  · exact karaSqChain_spec _ h2 n h1
+
+/-- the extracted squaring chain `128, 64, 32` halves at every level -/
+theorem karaSqSizes_halving : halvingChain karaSqSizes = true := by decide
+
 end CB.Karatsuba
